@@ -109,6 +109,13 @@ def gen_partial_case(rng, cid):
         tA, tB = rng.choice('NTC'), rng.choice('NTC')
         args = {'A': sp(*((m, k) if tA == 'N' else (k, m))), 'B': sp(*((k, n) if tB == 'N' else (n, k))), 'C': sp(m, n),
                 'transA': {'chr': tA}, 'transB': {'chr': tB}, 'alpha': num(rng), 'beta': num(rng), 'partial': {'bool': True}}
+        if rng.random() < 0.4:
+            # the full (non-partial) all-sparse product into an output that already has entries of its own; beta zero, omitted or not
+            del args['partial']
+            b_ = rng.choice([{'num': 0.0}, None, {'num': 1.0}])
+            if b_ is None: del args['beta']
+            else: args['beta'] = b_
+            return {'kind': 'base', 'id': cid, 'routine': 'gemm', 'args': args, 'pos': ['A', 'B', 'C'], 'twin': True, 'valid': True}
         return {'kind': 'base', 'id': cid, 'routine': 'gemm', 'args': args, 'pos': ['A', 'B', 'C'], 'twin': False, 'valid': True}
     t = rng.choice('NT')
     args = {'A': sp(*((n, k) if t == 'N' else (k, n))), 'C': sp(n, n), 'trans': {'chr': t}, 'uplo': {'chr': rng.choice('LU')},
